@@ -9,7 +9,7 @@
    the algorithm, C05_two_dates_do_not_suffice; the general statement is C05_every_date_partial = the two evaluated
    dates); floating-point rounding (theorems are over R). *)
 From Coq Require Import ZArith List Bool Reals.
-From Verif Require Import lib.Arith gen.SteadyGen model.Steady proofs.SteadyProofs.
+From Verif Require Import lib.Arith gen.SteadyGen gen.SteadyPlanGen model.Steady model.SteadyPlan proofs.SteadyProofs proofs.SteadyPlanProofs.
 Import ListNotations.
 Notation RA := RArith.
 
@@ -270,3 +270,109 @@ Example C05_hypotheses_satisfiable_growth :
   ex_rw_mbs = [mkMB [ex_rw_eq] [0%nat] [0%nat] [0%nat] [5%R; 3%R]] /\
   r_levels RA ex_rw_res = [5%R; 3%R] /\ r_changes RA ex_rw_res = [3%R; 0%R].
 Proof. exact example_growth. Qed.
+
+(* ---------------------------------------------------------------------------------------------------------------
+   7. steady plans (plans/steady_plans.py as a register machine, model/SteadyPlan.v; the guard of fix/unfix, the
+      method -> register table, the set algebra of _resolve_steady_wrt and the descriptor of _steady_linear are
+      regenerated from the source into gen/SteadyPlanGen.v).
+   (a) after ANY history of public calls on a fresh SteadyPlan, a successful fix(names) leaves every named quantity
+       with its level fixed and, in growth mode, its change fixed as well *)
+Theorem C05_plan_fix_fixes_level_and_change : forall endog params flat h s n,
+  let p := run (init_plan endog params flat) h in
+  let r := step p (OFix s) in
+  snd r = true -> sel_covers (sp_fixl p) s n = true ->
+  is_on (sp_fixl (fst r)) n = true /\ (flat = false -> is_on (sp_fixc (fst r)) n = true).
+Proof. exact fix_fixes_level_and_change. Qed.
+Print Assumptions C05_plan_fix_fixes_level_and_change.
+
+Theorem C05_plan_unfix_unfixes : forall endog params flat h s n,
+  let p := run (init_plan endog params flat) h in
+  let r := step p (OUnfix s) in
+  snd r = true -> sel_covers (sp_fixl p) s n = true ->
+  is_on (sp_fixl (fst r)) n = false /\ is_on (sp_fixc (fst r)) n = false.
+Proof. exact unfix_unfixes_level_and_change. Qed.
+Print Assumptions C05_plan_unfix_unfixes.
+
+(* (b) a call that does not name a quantity in a register leaves its status there: a status lasts over every later
+       history that does not name it (exogenize/endogenize/fix_level/fix_change/fix/unfix/swap/unswap alike) *)
+Theorem C05_plan_status_lasts : forall p h r n, forallb (fun o => negb (touches o r n)) h = true ->
+  is_on (get_reg (run p h) r) n = is_on (get_reg p r) n.
+Proof. exact status_lasts. Qed.
+Print Assumptions C05_plan_status_lasts.
+
+(* (c) every call keeps the key set of every register; the registers reachable from SteadyPlan(model) *)
+Theorem C05_plan_reachable_keys : forall endog params flat h,
+  let p := run (init_plan endog params flat) h in
+  keys (sp_exog p) = endog /\ keys (sp_endog p) = params /\ keys (sp_fixl p) = endog /\
+  keys (sp_fixc p) = if flat then [] else endog.
+Proof. exact reachable_keys. Qed.
+Print Assumptions C05_plan_reachable_keys.
+
+(* (d) what the plan hands to the solver: unknowns = endogenous minus exogenized plus endogenized; per block the level is
+       an unknown unless fixed, the change unless fixed or the quantity is an endogenized parameter; the regenerated
+       set algebra of _resolve_steady_wrt is the modelled one *)
+Theorem C05_plan_unknowns : forall kinds p bq q,
+  (In q (fst (fst (resolve_wrt kinds p))) <->
+     (q < length kinds)%nat /\
+     ((is_endog (kind_of kinds q) = true /\ ~ In q (p_exogenized p)) \/ In q (p_endogenized p))) /\
+  (In q (level_unknowns kinds p bq) <-> (q < length kinds)%nat /\ In q bq /\ ~ In q (p_fixed_level p)) /\
+  (In q (change_unknowns kinds p bq) <->
+     (q < length kinds)%nat /\ In q bq /\ ~ In q (p_fixed_change p) /\ ~ In q (p_endogenized p)).
+Proof. exact unknowns_of_plan. Qed.
+Print Assumptions C05_plan_unknowns.
+
+Theorem C05_resolve_wrt_is_source : forall kinds p, resolve_wrt_gen kinds p = resolve_wrt kinds p.
+Proof. exact resolve_wrt_is_source. Qed.
+Print Assumptions C05_resolve_wrt_is_source.
+
+(* (e) through the WHOLE loop of _steady_nonlinear (every block, any well-formed oracle outputs) a fixed-level quantity
+       keeps its stored level and, in growth mode, a fixed-change quantity keeps its stored change *)
+Theorem C05_steady_nonlinear_keeps_fixed : forall flat lg kinds eqs p split blocks orcs (v : variant RA) tol,
+  let res := steady_nonlinear RA nobad flat lg kinds eqs p split blocks orcs v in
+  let wrt := fst (fst (resolve_wrt kinds p)) in
+  let fixl := snd (fst (resolve_wrt kinds p)) in
+  let fixc := snd (resolve_wrt kinds p) in
+  let blocks1 := if split then blocks else [mkBlock (seq 0 (length eqs)) wrt] in
+  let mbs := pair_blocks kinds eqs fixl fixc blocks1 orcs in
+  vinv flat lg (length kinds) v -> all_ok flat lg kinds tol (length kinds) mbs v ->
+  forall q,
+    (In q fixl -> vget RA (r_levels RA res) q = vget RA (v_levels RA v) q) /\
+    (flat = false -> In q fixc -> vget RA (r_changes RA res) q = vget RA (v_changes RA v) q).
+Proof. exact steady_nonlinear_keeps_fixed. Qed.
+Print Assumptions C05_steady_nonlinear_keeps_fixed.
+
+(* (f) end to end: fixed by plan.fix(names) after any history h1, not named by the later calls h2  =>  the assigned level
+       (growth mode: and the assigned change) is what solve_steady's nonlinear loop leaves stored *)
+Theorem C05_plan_fix_keeps_assigned_path : forall endog params flat h1 s h2 n lg kinds eqs split blocks orcs (v : variant RA) tol,
+  let p0 := run (init_plan endog params flat) h1 in
+  let pf := run (init_plan endog params flat) (h1 ++ OFix s :: h2) in
+  let pl := plan_view (Some pf) in
+  let res := steady_nonlinear RA nobad flat lg kinds eqs pl split blocks orcs v in
+  let blocks1 := if split then blocks else [mkBlock (seq 0 (length eqs)) (fst (fst (resolve_wrt kinds pl)))] in
+  let mbs := pair_blocks kinds eqs (snd (fst (resolve_wrt kinds pl))) (snd (resolve_wrt kinds pl)) blocks1 orcs in
+  snd (step p0 (OFix s)) = true -> sel_covers (sp_fixl p0) s n = true -> (n < length kinds)%nat ->
+  forallb (fun o => negb (touches o RFixL n)) h2 = true -> forallb (fun o => negb (touches o RFixC n)) h2 = true ->
+  vinv flat lg (length kinds) v -> all_ok flat lg kinds tol (length kinds) mbs v ->
+  vget RA (r_levels RA res) n = vget RA (v_levels RA v) n /\
+  (flat = false -> vget RA (r_changes RA res) n = vget RA (v_changes RA v) n).
+Proof. exact fix_keeps_assigned_path. Qed.
+Print Assumptions C05_plan_fix_keeps_assigned_path.
+
+(* 8. the linear steady state is computed from the STEADY descriptor (the `!!` versions), and the positions of the
+      solution vector are read off the same descriptor *)
+Theorem C05_linear_uses_steady_descriptor : forall (S T : Type) (sys_of : descriptor -> S) (toks_of : descriptor -> T),
+  linear_system sys_of = sys_of DSteady /\ linear_tokens toks_of = toks_of DSteady.
+Proof. exact linear_steady_uses_steady_descriptor. Qed.
+Print Assumptions C05_linear_uses_steady_descriptor.
+
+(* non-vacuity: a growth-mode history with a successful fix, and a flat-mode history with failing calls *)
+Example C05_plan_example_growth :
+  let p0 := init_plan [0; 1]%nat [2]%nat false in
+  let h := [OCall MExogenize (SNames [1%nat]); OFix (SNames [0%nat]); OCall MEndogenize (SNames [2%nat]);
+            OCall MUnexogenize SAll] in
+  map snd (run_trace p0 h) = [true; true; true; true] /\
+  run p0 h = mkSP [(0, false); (1, false)]%nat [(2%nat, true)] [(0, true); (1, false)]%nat [(0, true); (1, false)]%nat /\
+  resolve_wrt [KEndog; KEndog; KParam] (plan_view (Some (run p0 h))) = ([0; 1; 2], [0], [0; 2])%nat /\
+  level_unknowns [KEndog; KEndog; KParam] (plan_view (Some (run p0 h))) [0; 1; 2]%nat = [1; 2]%nat /\
+  change_unknowns [KEndog; KEndog; KParam] (plan_view (Some (run p0 h))) [0; 1; 2]%nat = [1]%nat.
+Proof. exact ex_plan_growth. Qed.
